@@ -71,7 +71,7 @@ ReadAntecedent(toks) ==
 RECURSIVE LoadC(_,_,_)
 LoadC(toks, state, concl) ==
   IF toks = <<>> THEN
-     IF state \cap {"and", "with"} = {} THEN Error("consequent-incomplete") ELSE concl
+     IF state \cap {"and", "with"} = {} THEN Error("consequent-incomplete") ELSE [concl |-> concl]
   ELSE LET k == Head(toks)  rest == Tail(toks)  n == Len(concl) IN
     IF "variable" \in state /\ k \in OutVars THEN LoadC(rest, {"is"}, Append(concl, [var |-> k, hs |-> <<>>, term |-> ""]))
     ELSE IF "is" \in state /\ k = "is" THEN LoadC(rest, {"hedge", "term"}, concl)
@@ -104,7 +104,7 @@ ReadRule(toks) ==
   ELSE LET a == ReadAntecedent(r.ant) IN
        IF IsError(a) THEN a
        ELSE LET c == ReadConsequent(r.con) IN
-            IF IsError(c) THEN c ELSE [ant |-> a, cons |-> c, weight |-> r.weight]
+            IF IsError(c) THEN c ELSE [ant |-> a, cons |-> c.concl, weight |-> r.weight]
 
 \* ---- the documented grammar, declaratively (used to say which texts MUST be rejected) ------------------------------
 \*   antecedent ::= proposition | antecedent (and|or) antecedent | ( antecedent )
@@ -117,12 +117,12 @@ IsProp(s) == /\ Len(s) >= 3 /\ s[1] \in AllVars /\ s[2] = "is"
 IsAnt(s) == \/ IsProp(s)
             \/ (Len(s) >= 3 /\ s[1] = "(" /\ s[Len(s)] = ")" /\ IsAnt(SubSeq(s, 2, Len(s) - 1)))
             \/ \E i \in 2..(Len(s) - 1) : s[i] \in {"and", "or"} /\ IsAnt(SubSeq(s, 1, i - 1)) /\ IsAnt(SubSeq(s, i + 1, Len(s)))
-IsConclusion(s) == Len(s) >= 3 /\ s[1] \in OutVars /\ s[2] = "is" /\ s[Len(s)] \in TermNames /\ \A i \in 3..(Len(s) - 1) : s[i] \in HedgeNames
+IsConclusion(s) == Len(s) >= 3 /\ s[1] \in OutVars /\ s[2] = "is" /\ s[Len(s)] \in TermNames /\ (\A i \in 3..(Len(s) - 1) : s[i] \in HedgeNames)
 RECURSIVE IsCons(_)
 IsCons(s) == IsConclusion(s) \/ \E i \in 2..(Len(s) - 1) : s[i] = "and" /\ IsConclusion(SubSeq(s, 1, i - 1)) /\ IsCons(SubSeq(s, i + 1, Len(s)))
 InGrammar(toks) ==
   \E i \in 2..Len(toks) : /\ toks[1] = "if" /\ toks[i] = "then"
-     /\ \A j \in 2..(i - 1) : toks[j] # "then"
+     /\ (\A j \in 2..(i - 1) : toks[j] # "then")
      /\ IsAnt(SubSeq(toks, 2, i - 1))
      /\ \/ IsCons(SubSeq(toks, i + 1, Len(toks)))
         \/ (Len(toks) >= i + 3 /\ toks[Len(toks) - 1] = "with" /\ IsNumber(toks[Len(toks)]) /\ IsCons(SubSeq(toks, i + 1, Len(toks) - 2)))
